@@ -368,6 +368,36 @@ fn worker(batch: &str, o: &Opts, out: &mut dyn FnMut(String)) {
                 }
             }
         }
+        "encnan" => {
+            // special values in SUBSAMPLED encodes: every subsampling, small sizes, pictures that are NaN / inf everywhere, in
+            // the last row, the last column, the first column, in one chroma block, and random mixtures of the special values
+            let sp = specials();
+            for (sx, sy) in [(1u8, 1u8), (1, 0), (0, 1), (2, 0), (2, 2), (0, 0)] {
+                for (w, h) in [(4usize, 4usize), (8, 4), (4, 8), (8, 8), (12, 4)] {
+                    for st in [8u8, 16] {
+                        let c = Cfg { mc: MC_STD[(w + h + usize::from(sx)) % 7], tc: 1, cp: 1, full: (w / 4 + usize::from(sy)) % 2 == 0, n: if st == 8 { 8 } else { 10 }, ssx: sx, ssy: sy };
+                        for variant in 0..(if o.thorough { 40 } else { 14 }) {
+                            let bad = [f32::NAN, f32::INFINITY, f32::NEG_INFINITY, -3.0e38][variant % 4];
+                            let px: Vec<[f32; 3]> = (0..w * h)
+                                .map(|i| {
+                                    let (x, y) = (i % w, i / w);
+                                    let hit = match variant / 4 {
+                                        0 => true,
+                                        1 => y == h - 1,
+                                        2 => x == w - 1 || x == 0,
+                                        _ => return [sp[rng.below(sp.len() as u64) as usize], sp[rng.below(sp.len() as u64) as usize], sp[rng.below(sp.len() as u64) as usize]],
+                                    };
+                                    if hit { [bad, bad, bad] } else { [0.25, 0.5, 0.75] }
+                                })
+                                .collect();
+                            let mut s = format!("\"ev\":\"total\",\"stage\":\"enc\",\"cfg\":{},\"st\":{st},\"input\":\"cube\",\"npx\":{},\"w\":{w},\"h\":{h},\"divisible\":1,", c.json(), px.len());
+                            run_guarded(&mut s, |b| if st == 8 { enc::<u8>(&px, w, h, &c, b) } else { enc::<u16>(&px, w, h, &c, b) });
+                            out(s);
+                        }
+                    }
+                }
+            }
+        }
         "dechuge" => {
             // strips and sheets of 8.4 million pixels and more (row-band splits: `h - first_row`, `h / workers` with h = 1, 9 ...)
             for (k, &(w, h, sx, sy)) in [(8_388_611usize, 1usize, 0u8, 0u8), (1_048_577, 9, 0, 0), (2_097_154, 4, 1, 1), (3840, 2160, 1, 1), (16, 524_289, 0, 0)].iter().enumerate() {
@@ -488,6 +518,7 @@ pub fn batches(for_c07: bool) -> Vec<String> {
         v.push(b.to_string());
     }
     v.push("dechuge".to_string());
+    v.push("encnan".to_string());
     v.push("encgeom".to_string());
     v.push("decgeom".to_string());
     v.push("chain".to_string());
